@@ -2183,6 +2183,9 @@ template< size_t L>
    FixedString< L>& FixedString< L>::insert( size_t index,
       const std::string& str, size_t index_str, size_t count) noexcept
 {
+   // substr() would throw, and this function is noexcept
+   if (index_str > str.length())
+      return *this;
    return insert( index, str.substr( index_str, count));
 } // FixedString< L>::insert
 
